@@ -86,7 +86,8 @@ class Module:
 class Tr:
     """symbolic executor for one class"""
 
-    def __init__(self, mod, cls, inputs, cosmo_attrs=True, self_calls=None):
+    def __init__(self, mod, cls, inputs, cosmo_attrs=True, self_calls=None, flow=False):
+        self.flow = flow
         self.mod, self.cls = mod, cls
         self.inputs = inputs            # self.<attr> names that are inputs (vars)
         self.notes = []                 # untranslatable pieces (reported, never guessed)
@@ -236,6 +237,8 @@ class Tr:
                 return ("ite", c, t, e) if t != e else t
             elif isinstance(s, ast.FunctionDef):
                 env[s.name] = ("def", s)
+            elif isinstance(s, ast.Try):
+                return self.block(s.body + body[i + 1:], env, k, fname)
             elif isinstance(s, (ast.Raise,)):
                 raise Unsupported("raise")
             elif isinstance(s, (ast.Assert, ast.Pass, ast.Expr)):
@@ -274,6 +277,11 @@ class Tr:
     def self_attr(self, a, k, env):
         if a in self.inputs:
             return ("var", a)
+        if self.flow:
+            kk, fn = self.mod.find(self.cls, a)
+            if fn is not None and any(ast.unparse(d) == "property" for d in fn.decorator_list):
+                return self.func(fn, kk, {})
+            return ("var", a)          # another parameter / cached quantity of the framework: an input of this body
         self.load_init()
         if a in self.attrs:
             return self.attrs[a]
@@ -286,6 +294,20 @@ class Tr:
         raise Unsupported(f"self.{a}")
 
     def expr(self, e, env, k):
+        if not self.flow:
+            return self.expr0(e, env, k)
+        try:
+            return self.expr0(e, env, k)
+        except Unsupported as ex:
+            if isinstance(e, (ast.Constant, ast.Name)):
+                raise
+            src = ast.unparse(e)
+            if any(isinstance(n, ast.Name) and n.id in env and n.id != "self" for n in ast.walk(e)):
+                raise                     # mentions a local: cannot be re-evaluated from outside
+            self.notes.append(f"{k}: `{src[:60]}` opaque ({ex})")
+            return ("var", "py:" + src)
+
+    def expr0(self, e, env, k):
         if isinstance(e, ast.Constant):
             if isinstance(e.value, (int, float)) and not isinstance(e.value, bool):
                 return lit(e.value)
@@ -321,9 +343,11 @@ class Tr:
                 return self.self_attr(e.attr, k, env)
             if src.startswith("self.cosmo.") and src.count(".") == 2:
                 return ("var", "cosmo." + e.attr)
-            if src.endswith(".value") and isinstance(e.value, ast.Attribute):
-                return self.expr(e.value, env, k)          # astropy Quantity -> number (unit bookkeeping is outside the model)
+            if e.attr == "value" and isinstance(e.value, (ast.Attribute, ast.Call)):
+                return self.expr(e.value, env, k)          # astropy Quantity -> number (unit conversion appears as `unitconv:`)
             if isinstance(e.value, ast.Call) and isinstance(e.value.func, ast.Name) and e.value.func.id == "super":
+                if self.flow:
+                    return ("var", "super." + e.attr)
                 idx = self.mod.mro(self.cls).index(k)
                 kk, fn = self.mod.find(self.cls, e.attr, idx + 1)
                 if fn is None:
@@ -356,6 +380,9 @@ class Tr:
                 return ("pow", self.expr(e.args[0], env, k), self.expr(e.args[1], env, k))
             if f == "np.where" and len(e.args) == 3:
                 return ("ite", self.cond(e.args[0], env, k), self.expr(e.args[1], env, k), self.expr(e.args[2], env, k))
+            if f == "np.arange" and len(e.args) == 3 and not e.keywords:
+                a0, a2 = self.expr(e.args[0], env, k), self.expr(e.args[2], env, k)
+                return ("add", a0, ("mul", ("var", "idx"), a2))      # numpy: start + i*step, i = 0,1,…
             if f in ("min", "max", "np.minimum", "np.maximum") and len(e.args) == 2:
                 return ("min" if "min" in f else "max", self.expr(e.args[0], env, k), self.expr(e.args[1], env, k))
             if f in ("float", "np.asarray", "np.atleast_1d", "np.array", "np.float64") and len(e.args) == 1:
@@ -370,9 +397,12 @@ class Tr:
                 return self.self_calls[f](self, e, env, k)
             if f.startswith("self.") and f.count(".") == 1:
                 kk, fn = self.mod.find(self.cls, f[5:])
+                decs = [ast.unparse(d) for d in fn.decorator_list] if fn is not None else []
+                if fn is not None and any(d in ("property", "cached_quantity", "_cache.cached_quantity") for d in decs):
+                    raise Unsupported(f"call of the value of property {f}")
                 if fn is not None:
                     env2 = {}
-                    params = fn.args.args[1:]
+                    params = fn.args.args if "staticmethod" in decs else fn.args.args[1:]
                     defaults = fn.args.defaults
                     for a, d in zip(params[len(params) - len(defaults):], defaults):
                         try:
@@ -384,6 +414,17 @@ class Tr:
                     for kw in e.keywords:
                         env2[kw.arg] = self.expr(kw.value, env, k)
                     return self.func(fn, kk, env2)
+            if f.startswith("cls.") and f.count(".") == 1:
+                kk, fn = self.mod.find(self.cls, f[4:])
+                if fn is not None:
+                    decs = [ast.unparse(d) for d in fn.decorator_list]
+                    params = fn.args.args if "staticmethod" in decs else fn.args.args[1:]
+                    env2 = {a.arg: self.expr(v, env, k) for a, v in zip(params, e.args)}
+                    return self.func(fn, kk, env2)
+            if isinstance(e.func, ast.Attribute) and isinstance(e.func.value, ast.Name) and e.func.value.id in env \
+                    and env[e.func.value.id][0] == "var" and len(e.args) == 1 and not e.keywords:
+                # method of an argument object (e.g. cosmo.Om(z)): opaque external function of one argument
+                return ("call", env[e.func.value.id][1] + "." + e.func.attr, self.expr(e.args[0], env, k))
             if isinstance(e.func, ast.Name) and e.func.id in env and env[e.func.id][0] == "def":
                 fn = env[e.func.id][1]
                 env2 = dict(env)
@@ -393,8 +434,9 @@ class Tr:
                 fn = self.mod.funcs[e.func.id]
                 env2 = {a.arg: self.expr(v, env, k) for a, v in zip(fn.args.args, e.args)}
                 return self.block(fn.body, env2, k, fn.name)
-            if isinstance(e.func, ast.Attribute) and ast.unparse(e.func).endswith(".to") :
-                return self.expr(e.func.value, env, k)       # unit conversion: opaque positive constant handled by harness
+            if isinstance(e.func, ast.Attribute) and e.func.attr == "to" and len(e.args) == 1:
+                # astropy unit conversion: multiplication by a positive constant (opaque; the harness supplies its value)
+                return ("mul", self.expr(e.func.value, env, k), ("var", "unitconv:" + ast.unparse(e.args[0])))
             raise Unsupported(f"call {f}")
         raise Unsupported(f"expr {type(e).__name__}: {ast.unparse(e)[:40]}")
 
@@ -600,6 +642,78 @@ def defaults_lean(meta, ns_items):
     return "\n".join(L)
 
 
+FLOW = [("cosmology/cosmo.py", "Cosmology", ["mean_density0"]),
+        ("density_field/transfer.py", "Transfer", ["k", "_unnormalised_power", "_normalisation", "_power0", "transfer_function", "power",
+                                                     "delta_k", "nonlinear_power", "growth_factor"]),
+        ("mass_function/hmf.py", "MassFunction", ["m", "mean_density", "_sigma_0", "sigma", "nu", "lnsigma", "n_eff", "_dlnsdlnm", "fsigma",
+                                                   "dndm", "dndlnm", "dndlog10m", "rho_ltm", "how_big", "radii", "_unn_sigma0"]),
+        ("alternatives/wdm.py", "TransferWDM", ["_unnormalised_lnT"]),
+        ("alternatives/wdm.py", "MassFunctionWDM", ["dndm"])]
+
+
+def flow():
+    items, meta = [], {}
+    for rel, cls, qs in FLOW:
+        mod = Module(rel)
+        for q in qs:
+            tr = Tr(mod, cls, set(), flow=True)
+            kk, fn = mod.find(cls, q)
+            name = f"{cls}_{q}"
+            try:
+                t = lower(tr.func(fn, kk, {}))
+                items.append((name, t))
+                meta[name] = {"tree": t, "notes": tr.notes, "cls": cls, "quantity": q}
+            except Unsupported as e:
+                meta[name] = {"unsupported": str(e), "cls": cls, "quantity": q}
+    return items, meta
+
+
+COMPONENTS = [
+    # (namespace, file, base class, [(method, is_property)], input attrs of self)
+    ("Wdm", "alternatives/wdm.py", "WDM", [("transfer", False), ("lam_eff_fs", True), ("m_fs", True), ("lam_hm", True), ("m_hm", True)],
+     {"mx", "rho_mean", "Oc0", "cosmo"}),
+    ("WdmAlter", "alternatives/wdm.py", "WDMRecalibrateMF", [("dndm_alter", False)], {"m", "dndm0", "wdm"}),
+    ("Transfer", "density_field/transfer_models.py", "TransferComponent", [("lnt", False)], {"cosmo"}),
+    ("Filters", "density_field/filters.py", "Filter", [("k_space", False), ("real_space", False), ("dw_dlnkr", False), ("mass_to_radius", False),
+                                                        ("radius_to_mass", False), ("dlnr_dlnm", False), ("dlnss_dlnr", False)], {"k", "power"}),
+    ("Mdef", "halos/mass_definitions.py", "MassDefinition", [("halo_density", False), ("halo_overdensity_mean", False), ("halo_overdensity_crit", False),
+                                                              ("m_to_r", False), ("r_to_m", False)], set()),
+    ("Growth", "cosmology/growth_factor.py", "_GrowthFactor", [("_d_plus", False), ("growth_factor", False), ("growth_rate", False)], {"cosmo"}),
+]
+
+
+def components():
+    out_items, out_meta = {}, {}
+    for ns, rel, base, methods, inputs in COMPONENTS:
+        mod = Module(rel)
+        items, meta = [], {}
+        classes = [base] + mod.subclasses(base) if base in mod.classes else mod.subclasses(base)
+        for c in classes:
+            for mname, is_prop in methods:
+                kk, fn = mod.find(c, mname)
+                if fn is None:
+                    continue
+                if kk != c and c != base and not _ctor_differs(mod, c, kk):
+                    pass            # inherited unchanged: still emitted under the subclass name (aliases are checked by equality)
+                tr = Tr(mod, c, set(inputs), flow=False)
+                env = {} if is_prop else {a.arg: ("var", a.arg) for a in fn.args.args[1:]}
+                name = f"{c}_{mname}"
+                try:
+                    t = lower(tr.func(fn, kk, env))
+                    items.append((name, t))
+                    meta[name] = {"tree": t, "cls": c, "method": mname, "owner": kk, "notes": tr.notes,
+                                  "args": [a.arg for a in fn.args.args[1:]] if not is_prop else []}
+                except Unsupported as e:
+                    meta[name] = {"unsupported": str(e), "cls": c, "method": mname, "owner": kk}
+            meta[f"{c}._defaults"] = {"defaults": defaults_of(mod, c)}
+        out_items[ns], out_meta[ns] = items, meta
+    return out_items, out_meta
+
+
+def _ctor_differs(mod, c, owner):
+    return True
+
+
 def main():
     verif = os.path.dirname(os.path.dirname(os.path.abspath(__file__)))
     gen = os.path.join(verif, "lean", "HmfVerif", "Gen")
@@ -607,12 +721,22 @@ def main():
     items, meta = fits()
     emit_module(os.path.join(gen, "ExprFits.lean"), "Fits", items, extra=defaults_lean(meta, items))
     out["fits"] = meta
+    fitems, fmeta = flow()
+    emit_module(os.path.join(gen, "ExprFlow.lean"), "Flow", fitems)
+    out["flow"] = fmeta
+    print("pyexpr: flow", len(fitems), "unsupported", {k: v["unsupported"] for k, v in fmeta.items() if "unsupported" in v})
+    citems, cmeta = components()
+    for ns, items in citems.items():
+        emit_module(os.path.join(gen, f"Expr{ns}.lean"), ns, items)
+        bad = {k: v["unsupported"][:70] for k, v in cmeta[ns].items() if "unsupported" in v}
+        print(f"pyexpr: {ns}", len(items), "unsupported", bad)
+    out["components"] = cmeta
     jt = json.dumps(out, indent=1, sort_keys=True, default=list)
     p = os.path.join(gen, "expr.json")
     if not os.path.exists(p) or open(p).read() != jt:
         open(p, "w").write(jt)
     bad = {c: e.get("unsupported") for c, e in meta.items() if "unsupported" in e}
-    print("pyexpr: fits", len(items), "unsupported", bad)
+    print("pyexpr: fits", len(meta), "unsupported", bad)
     for c, e in meta.items():
         if e["notes"]:
             print("   ", c, e["notes"][:4])
